@@ -463,4 +463,69 @@ theorem cmd_json_unknown_refused [Zero α] [Add α] (d : Doc α) (req : List Id)
     (hx : x ∈ req) (hxs : x ∉ (d.recs ax).map (·.id)) : cmdJson d req ax = .error .key := by
   simp only [cmdJson, cmdJsonDoc, getAxisIndices_refuses d req ax x hx hxs]
 
+
+/-! ## The declarative predicate holds of load-all-then-filter, hence of every model -/
+
+/-- the table the property expects for a variant: filter; drop emptied other-axis vectors where
+documented; no metadata for the metadata-free variant -/
+def subsetSpec [Zero α] [DecidableEq α] (t : Table α) (req : List Id) (ax : Axis) (v : Variant) : Table α :=
+  if v.noMd then stripMd (filterAxis t req ax)
+  else if v.drops then dropEmptyOther (filterAxis t req ax) ax
+  else filterAxis t req ax
+
+structure TableOK (t : Table α) : Prop where
+  wf : t.WF
+  obsNodup : t.obs.Nodup
+  sampNodup : t.samp.Nodup
+
+theorem TableOK.nodup {t : Table α} (h : TableOK t) (ax : Axis) : (t.ids ax).Nodup := by
+  cases ax
+  · exact h.obsNodup
+  · exact h.sampNodup
+
+theorem firstFailing_none (l : List (String × Bool)) (h : ∀ c ∈ l, c.2 = true) : firstFailing l = none := by
+  induction l with
+  | nil => rfl
+  | cons c cs ih =>
+    obtain ⟨n, b⟩ := c
+    have hb : b = true := h (n, b) List.mem_cons_self
+    subst hb
+    simp only [firstFailing, ↓reduceIte]
+    exact ih (fun c hc => h c (List.mem_cons_of_mem _ hc))
+
+theorem mem_keptIds {t : Table α} {req : List Id} {ax : Axis} {k : Id}
+    (h : k ∈ filterMask (t.ids ax) (idMask (t.ids ax) req)) : k ∈ t.ids ax := mem_filterMask h
+
+/-- clauses for the plain filter (no emptiness filter) -/
+theorem okClauses_filter [Zero α] [DecidableEq α] (t : Table α) (ok : TableOK t) (req : List Id)
+    (ax : Axis) (v : Variant) (hd : v.drops = false) (hm : v.noMd = false) :
+    ∀ c ∈ okClauses t req ax v (filterAxis t req ax), c.2 = true := by
+  have hida : (filterAxis t req ax).ids ax = keptIds t req ax := by
+    unfold filterAxis keptIds; rw [maskTable_ids_same, idMask, filterMask_map_pred]
+  have hido : (filterAxis t req ax).ids ax.other = t.ids ax.other := maskTable_ids_other _ _ _
+  intro c hc
+  simp only [okClauses, hd, hm, Bool.false_eq_true, ↓reduceIte, List.mem_cons, List.not_mem_nil,
+    or_false] at hc
+  rcases hc with rfl | rfl | rfl | rfl | rfl | rfl | rfl
+  · simp [hida]
+  · simp [hido]
+  · simp only [hida, hido, List.all_eq_true, Bool.and_eq_true, beq_iff_eq]
+    intro k hk o ho
+    have hk' : k ∈ filterMask (t.ids ax) (idMask (t.ids ax) req) := by
+      rw [idMask, filterMask_map_pred]; exact hk
+    have e := cellA_maskTable_same t ax (idMask (t.ids ax) req) k o (ok.nodup ax) hk'
+    unfold filterAxis
+    rw [e]
+    exact ⟨cellA_isSome t ok.wf ax k o (mem_filterMask hk') ho, rfl⟩
+  · simp only [mdClause, hida, List.all_eq_true, beq_iff_eq]
+    intro k hk
+    have hk' : k ∈ filterMask (t.ids ax) (idMask (t.ids ax) req) := by
+      rw [idMask, filterMask_map_pred]; exact hk
+    exact mdOf_maskTable_same t ax _ k (ok.nodup ax) hk'
+  · simp only [mdClause, List.all_eq_true, beq_iff_eq]
+    intro o _
+    exact mdOf_maskTable_other t ax _ o
+  · simp [filterAxis, maskTable_ttype]
+  · exact wfb_of_WF _ (maskTable_WF t ax _ ok.wf)
+
 end Biom.C14
